@@ -383,6 +383,11 @@ hwloc_calc_parse_range(const char *_string,
     } else if (end2 == end+1) {
       /* X- */
       amount = -1;
+    } else if (last < first) {
+      /* Y-X with Y>X is not a range: a negative amount would be taken for "X-" or for a huge count */
+      if (verbose >= 0)
+	fprintf(stderr, "invalid range `%s', last index is lower than first index\n", string);
+      return -1;
     } else {
       /* X-Y */
       amount = last-first+1;
@@ -399,6 +404,11 @@ hwloc_calc_parse_range(const char *_string,
     } else if (end2 == end+1) {
       if (verbose >= 0)
 	fprintf(stderr, "missing width at `%s' in range at `%s'\n", end2, string);
+      return -1;
+    } else if (amount < 0) {
+      /* a negative width would either hit the "all objects" marker (-1) or be taken for a huge count */
+      if (verbose >= 0)
+	fprintf(stderr, "invalid negative width in range at `%s'\n", string);
       return -1;
     }
 
@@ -479,7 +489,8 @@ hwloc_calc_append_object_range(struct hwloc_calc_location_context_s *lcontext,
 
   width = hwloc_calc_get_nbobjs_inside_sets_by_depth(lcontext, rootcpuset, rootnodeset, level);
   if (amount == -1)
-    amount = (width-first+step-1)/step;
+    /* beware of the unsigned underflow when first is beyond the last object */
+    amount = (unsigned) first < width ? (width-first+step-1)/step : 0;
 
   for(i=first, j=0; j<(unsigned)amount; i+=step, j++) {
     if (wrap && i>=width)
